@@ -315,7 +315,7 @@ def gen_history(rng, nops, profile):
 # ------------------------------------------------------------------ judging
 def events(ops, states, upto, k, sp=None):
     """risk events that touched iterator k (k < 0: any) before op index `upto`, read off the plain-list run:
-    E push while the iterator stood at the end, A other push, D delete by name/position, P pop, S shift,
+    E push while the iterator stood at the end (X: after it had already answered NULL), A other push, D delete by name/position, P pop, S shift,
     Q pop of the host the iterator stands on (it returned that host last), R own removal, M removal through another
     iterator, U uniq/sort, Z one of these mutations left the list EMPTY, N the iterator's last restart is a uniq/sort that left the list as it was while the
     iterator was not at the start; only events since the iterator's last (re)start"""
@@ -350,7 +350,7 @@ def events(ops, states, upto, k, sp=None):
         elif w[0] == "push" and i > 0 and states[i - 1] is not None:
             ln, cur = states[i - 1]
             at_end = (cur.get(k) == ln) if k >= 0 else any(c == ln for c in cur.values())
-            ev.add("E" if at_end else "A")
+            ev.add("X" if at_end and beyond else "E" if at_end else "A")     # X: the iterator had already answered NULL
         elif w[0] == "shift":
             ev.add("S")
         elif w[0] in ("uniq", "sort") and i > start:
